@@ -73,8 +73,20 @@ Definition t_points (x : sx) : sx :=
   L [sx_nat (deps_pt p); sx_nat (window_pt v p); sx_nat (List.length (pre_ops v p));
      sx_nat (compdb_lo v p); sx_nat (compdb_hi v p)].
 
+(* [variant; proj; n] -> the history `options`: state after the cut at n, the by-hand lazy follow-up, the verdicts *)
+Definition t_reconf (x : sx) : sx :=
+  let v := un_variant (nth_sx 0 x) in
+  let p := un_proj (nth_sx 1 x) in
+  let n := un_nat (nth_sx 2 x) in
+  let s := crash 4 n (run_ops v p) (fs_old p) in
+  let r := reconf_followup v p n in
+  L [L [sx_fstate (f_build s); sx_list sx_fstate (f_imm s); sx_fstate (f_compdb s); sx_fstate (f_env s)];
+     L [sx_bool (fst r); sx_fstate (f_build (snd r)); sx_list sx_fstate (f_imm (snd r)); sx_fstate (f_compdb (snd r))];
+     sx_bool (reconf_ok v p n); sx_bool (reconf_bad v p n)].
+
 Definition table : list (string * (sx -> sx)) :=
   [ ("crash.run_ops"%string, t_run_ops);
     ("crash.outcome"%string, t_outcome);
     ("crash.raise"%string, t_raise);
-    ("crash.points"%string, t_points) ].
+    ("crash.points"%string, t_points);
+    ("crash.reconf"%string, t_reconf) ].
